@@ -7256,8 +7256,10 @@ tsk_tree_map_mutations(tsk_tree_t *self, int32_t *genotypes,
         }
         u = self->tree_sequence->samples[j];
         if (genotypes[j] == TSK_MISSING_DATA) {
-            /* All bits set */
-            optimal_set[u] = UINT64_MAX;
+            /* Nothing is known about this sample: its optimal set is computed
+             * from its children below, like that of a non-sample node (a
+             * missing leaf ends up with every allele in its set). */
+            optimal_set[u] = 0;
         } else {
             optimal_set[u] = set_bit(optimal_set[u], genotypes[j]);
             num_alleles = TSK_MAX(genotypes[j], num_alleles);
@@ -7294,8 +7296,10 @@ tsk_tree_map_mutations(tsk_tree_t *self, int32_t *genotypes,
                 allele_count[allele] += bit_is_set(optimal_set[v], allele);
             }
         }
-        /* the virtual root has no flags defined */
-        if (u == (tsk_id_t) N || !(node_flags[u] & TSK_NODE_IS_SAMPLE)) {
+        /* the virtual root has no flags defined; samples with missing data
+         * have no bits set at this point */
+        if (u == (tsk_id_t) N || !(node_flags[u] & TSK_NODE_IS_SAMPLE)
+            || optimal_set[u] == 0) {
             max_allele_count = 0;
             for (allele = 0; allele < num_alleles; allele++) {
                 max_allele_count = TSK_MAX(max_allele_count, allele_count[allele]);
